@@ -35,6 +35,12 @@ Definition te_aff_beq {T} (F : Fops T) (A C : te_aff (T := T)) : bool :=
 (* a list of [fuel] elements f i, f (i+1), ... ; (index, value) association in a flat list [i0; v0; i1; v1; ...] *)
 Fixpoint long_stream {A} (fuel : nat) (i : Z) (f : Z -> A) : list A :=
   match fuel with O => [] | S fu => f i :: long_stream fu (i + 1) f end.
+(* indices (NOT reduced modulo r: par[2..]) interleaved with the scalar values (field elements) *)
+Fixpoint interleave (idx vals : list Z) : list Z :=
+  match idx, vals with
+  | i :: idx', v :: vals' => i :: v :: interleave idx' vals'
+  | _, _ => []
+  end.
 Fixpoint sparse_lookup (i : Z) (l : list Z) : Z :=
   match l with
   | j :: v :: r => if i =? j then v else sparse_lookup i r
@@ -65,7 +71,7 @@ Section RunG.
     | 6 => fin (msm_bigint_plain GO nb bs lks)
     | 7 => fin (msm_chunks GO true nb N (2 ^ 20) bs fks)
     (* 11 msm_chunks_long: a stream of par[0] (> 2^20) elements given intensionally -- base i = pool[i mod |pool|],
-       scalar i = 0 except at the listed (index, value) pairs -- so that the chunk loop runs more than once *)
+       scalar i = 0 except at index par[2+j] where it is ks[j] -- so that the chunk loop runs more than once *)
     | 11 => match bs with
             | [] => unsupported
             | b0 :: _ =>
@@ -73,7 +79,7 @@ Section RunG.
                 fin (msm_chunks GO true nb N (2 ^ 20)
                        (* par[1] more bases than scalars: the stream alignment skips them ONCE, before the first chunk *)
                        (long_stream (Z.to_nat (n + nth 1 par 0)) 0 (fun i => nth (Z.to_nat (i mod Z.of_nat (length bs))) bs b0))
-                       (long_stream (Z.to_nat n) 0 (fun i => sparse_lookup i fks)))
+                       (long_stream (Z.to_nat n) 0 (fun i => sparse_lookup i (interleave (skipn 2 par) fks))))
             end
     | 9 => fin (cp_run GO (msm_bigint GO true nb) (nth 0 par 0) (combine bs lks))
     | 10 => fin (hm_run GO (msm_bigint GO true nb) beq r N (nth 0 par 0) (combine bs fks))
